@@ -200,3 +200,29 @@ def frame_data_plan(chk) -> FrameDataPlan:
         p.alts.append((conds, alt, callee, (te._bind_args(callee, alt) or {}) if callee is not None else {}))
     chk._frame_data_plan = p
     return p
+
+
+def transport_integrity(chk, rule_id: str):
+    """The layers below the record contents, shared by every property that speaks of what a reader gets out of the file:
+    a record body reaches the file as segments that partition it in order with the right first / last bracketing (C02
+    R02.1 / R02.2 / R02.4), through an output buffer that hands on exactly the bytes it was given (C10 R10.1 / R10.2) and a
+    byte writer that replaces the file once and then appends (C10 R10.3).  If any of these fails, no record - whatever it
+    holds - comes back as it was written."""
+    from ..report import Check
+    from . import c02, c10
+    t2 = Check("C02", "quick", 0, chk.ix, chk.cg, quiet=True)
+    t2.guard(c02.run, t2)
+    t10 = Check("C10", "quick", 0, chk.ix, chk.cg, quiet=True)
+    t10.guard(c10.r10_1_buffer, t10)
+    t10.guard(c10.r10_3_byte_writer, t10)
+    n = 0
+    for t in (t2, t10):
+        for o in t.obs:
+            o.key = f"{o.rule}:{o.key}"
+            o.rule = rule_id
+            o.nontrivial = False
+            chk.obs.append(o)
+            n += 1
+        chk.consulted_functions |= t.consulted_functions
+        chk.deferred.extend(t.deferred)
+    chk.floor("transport-layer obligations", n, 100)
